@@ -713,7 +713,9 @@ class Interp:
                 continue  # the region of a live known finding of the CALLEE is not a precondition its callers must establish
             t = truthy(self.eval_spec(r, env))
             self.path.oblige(f"{self.cur_name}::call-pre:{fq.split(':')[-1]}#{i}", "call-pre", t, detail=r)
-        olds = self.capture_olds(list((c.call_ensures if c.call_ensures is not None else c.ensures).values()) + list(c.raises_ensures.values()), env)
+        # (call_raises_ensures: the caller-side view of the exceptional postconditions, when the callee's own ones speak about ghost state of its verification only)
+        rens = c.raises_ensures if getattr(c, "call_raises_ensures", None) is None else c.call_raises_ensures
+        olds = self.capture_olds(list((c.call_ensures if c.call_ensures is not None else c.ensures).values()) + list(rens.values()), env)
         # exceptional outcomes
         opts = [("ok", True)] + [(r, True) for r in c.raises]
         out = self.path.choose(opts, f"outcome:{fq}") if c.raises else "ok"
@@ -736,7 +738,7 @@ class Interp:
                 env.vars["raised"] = cls.name
             env.vars["result"] = None
             env.vars["exc"] = exc
-            for k, cl in c.raises_ensures.items():
+            for k, cl in rens.items():
                 self.path.assume(truthy(self.eval_spec(cl, env, olds)))
             self.abstract_log.append((fq, None, cls.name))
             raise PyExc(exc)
